@@ -480,7 +480,7 @@ func build(tier string) []*vkit.Scenario {
 func main() {
 	vkit.Main(&vkit.Spec{
 		Property: "C10", Level: "model_checking",
-		Rule: "one scenario = epoll mode x server executor (inline, goroutine-per-call, default task pool) x request history per connection (1-3 requests, HTTP/1.0 and 1.1, Connection absent/close/keep-alive, with and without body, pipelined or split at an offset, one or two connections) x response size (10 B, 70000 B) x socket capacity (unbounded, 4096 B); every interleaving of clients, poller, executor threads and drains within the preemption bound on the real nbhttp + nbio code; non-trivial = at least one response was produced. SECOND PART (scenario name \"blocking-modes/real-sockets/history-enumeration\", a different and weaker kind of claim): bounded-exhaustive enumeration of HISTORIES, free-running schedule - one case = I/O mode (IOModBlocking, IOModMixed with MaxBlockingOnline 1, IOModMixed with every connection of the history in the poller half, IOModNonBlocking as control) x server-side socket send buffer (default, 4096 B when the history has a 70000-byte response) x WebSocket upgrader variant when the history has an upgrade request (plain / transfer to the poller) x every event sequence of length <= 4 on one connection and <= 3 spread over two (thorough: 5 and 4) on real AF_UNIX socket-pair connections over {open, GET keep-alive, GET HTTP/1.0, GET Connection: close, 70000-byte response keep-alive / close, POST, two pipelined keep-alive GETs, keep-alive GET + closing GET pipelined, request head with the body withheld, the withheld body, WebSocket upgrade request, peer close}; each case is executed ONCE on the real code with real goroutines and the real kernel, schedules are not enumerated",
+		Rule: "one scenario = epoll mode x server executor (inline, goroutine-per-call, default task pool) x request history per connection (1-3 requests, HTTP/1.0 and 1.1, Connection absent/close/keep-alive, with and without body, pipelined, split at an offset or delivered in three pieces each of which is read before the next is sent, one or two connections) x response size (10 B, 70000 B) x socket capacity (unbounded, 4096 B); every interleaving of clients, poller, executor threads and drains within the preemption bound on the real nbhttp + nbio code; non-trivial = at least one response was produced. SECOND PART (scenario name \"blocking-modes/real-sockets/history-enumeration\", a different and weaker kind of claim): bounded-exhaustive enumeration of HISTORIES, free-running schedule - one case = I/O mode (IOModBlocking, IOModMixed with MaxBlockingOnline 1, IOModMixed with every connection of the history in the poller half, IOModNonBlocking as control) x server-side socket send buffer (default, 4096 B when the history has a 70000-byte response) x WebSocket upgrader variant when the history has an upgrade request (plain / transfer to the poller) x every event sequence of length <= 4 on one connection and <= 3 spread over two (thorough: 5 and 4) on real AF_UNIX socket-pair connections over {open, GET keep-alive, GET HTTP/1.0, GET Connection: close, 70000-byte response keep-alive / close, POST, two pipelined keep-alive GETs, keep-alive GET + closing GET pipelined, request head with the body withheld, the withheld body, WebSocket upgrade request, peer close}; each case is executed ONCE on the real code with real goroutines and the real kernel, schedules are not enumerated",
 		Assumptions: []string{
 			"covered: IOModNonBlocking, plain text, all three epoll modes. NOT covered by this technique: IOModBlocking / IOModMixed data paths and TLS (they need real *net.TCPConn / llib TLS on real synchronisation, invisible to the cooperative scheduler); their upper layers (parser, processor, response, job queue) are the same code explored here and in C05-C09",
 			"the connection-close decision is judged on HTTP/1.0 without keep-alive, 'Connection: close', and on a few forms in which the decisive option is not the first one (several Connection lines, an option list); the full header grammar is C07's subject",
